@@ -273,8 +273,8 @@ fn dynamic_mix(rng: &mut Rng, w: &mut World) {
 
 /// a resolver that accepts every package requirement except the listed names
 #[derive(Debug)]
-struct TableNpmResolver {
-  failing: Vec<String>,
+pub struct TableNpmResolver {
+  pub failing: Vec<String>,
 }
 
 #[async_trait::async_trait(?Send)]
